@@ -368,3 +368,91 @@ reg(Contract(
     canaries=[("never_accepts", lambda c: z3.Not(B(c.result[0])))],
     loops={1: LoopSpec(_swap_inv1, modifies=["Path.pp", "Path.pp#len"])},
 ))
+
+
+# ------------------------------------------------------------------ quantis_swap_zero (C11: energy acceptance rule)
+EXP = z3.Function("exp", REAL, REAL)
+
+
+def _np_exp(ex, st, bound, node):
+    x = to_real(bound["x"])
+    st.assume(EXP(x) > 0)
+    yield st, EXP(x)
+
+
+reg(Contract("np.exp", params=["x"], custom=_np_exp))
+IMPORTS["np"] = __import__("pyvc.interp", fromlist=["ExtName"]).ExtName("np")
+
+
+def _q_make(accept_all):
+    def make(ex, st):
+        e0 = mk_ens(st, ("R",), None, "e0", mc_move="sh")
+        e1 = mk_ens(st, ("L",), None, "e1", mc_move="sh")
+        e0["tis_set"]["accept_all"] = accept_all
+        e1["tis_set"] = e0["tis_set"]
+        p0, p1 = mk_path(st, "old0", 3), mk_path(st, "old1", 3)
+        st.assume(p0.term != p1.term)
+        return {"picked": {-1: {"ens": e0, "traj": p0}, 0: {"ens": e1, "traj": p1}}, "engines": {-1: [EngineObj("eng0")], 0: [EngineObj("eng1")]}}
+    return make
+
+
+def _q_req(c):
+    pk = c.a("picked")
+    e0, e1 = pk[-1]["ens"], pk[0]["ens"]
+    p0, p1 = pk[-1]["traj"], pk[0]["traj"]
+    a0, a1, a2 = e0["interfaces"]
+    b0, b1, b2 = e1["interfaces"]
+    return [
+        ("interfaces_ordered", z3.And(a0 <= a1, a1 <= a2, b0 <= b1, b1 <= b2, a2 == b0)),
+        ("maxlength_ge_3", e0["tis_set"]["maxlength"] >= 3),
+        ("old_paths_have_interior_points", z3.And(pplen(c.st, p0) >= 3, pplen(c.st, p1) >= 3)),
+        ("old_paths_within_maxlen", z3.And(pplen(c.st, p0) <= fld(c.st, "Path.maxlen", p0.term), pplen(c.st, p1) <= fld(c.st, "Path.maxlen", p1.term))),
+    ]
+
+
+def _vpot(st, r):
+    return z3.Select(st.heap["System.vpot"], r)
+
+
+def _q_post(ctx):
+    pk = ctx.a("picked")
+    e0 = pk[-1]["ens"]
+    p0, p1 = pk[-1]["traj"], pk[0]["traj"]
+    eng0, eng1 = ctx.a("engines")[-1][0], ctx.a("engines")[0][0]
+    acc, paths, status = ctx.result
+    accv = B(acc)
+    st_t = unwrap(status, "str")
+    n0 = pplen(ctx.old, p0)
+    props = _calls(ctx, "propagate")
+    out = [
+        ("accept_iff_status_ACC", accv == (st_t == S("ACC"))),
+        ("old_frames_untouched", unchanged_below(ctx, sys_fields(), ctx.old.alloc)),
+        ("old_paths_untouched", unchanged_below(ctx, ["Path.pp", "Path.pp#len"] + PATH_SCALARS, ctx.old.alloc)),
+        ("returns_a_path_for_each_ensemble", z3.BoolVal(isinstance(paths, list) and len(paths) == 2)),
+    ]
+    rg = ctx.st.env["ens_set0"]["rgen"] if "ens_set0" in ctx.st.env else None
+    draws = [t for k, t in (rg.draws if rg else []) if k == "random"]
+    if len(props) >= 2 and draws:
+        # the four energies the rule is defined on: V_lo(r_lo)=old0[-2], V_lo(r_hi)=first frame of the one-step [0-] trial,
+        # V_hi(r_hi)=old1[0], V_hi(r_lo)=first frame of the one-step [0+] trial
+        V0_r0 = _vpot(ctx.old, ppat(ctx.old, p0, n0 - 2))
+        V1_r1 = _vpot(ctx.old, ppat(ctx.old, p1, 0))
+        V0_r1 = _vpot(ctx.st, props[0]["first"])
+        V1_r0 = _vpot(ctx.st, props[1]["first"])
+        arg = (V0_r0 - V0_r1) * eng0.beta - (V1_r0 - V1_r1) * eng1.beta
+        pacc = z3.If(EXP(arg) < 1, EXP(arg), z3.RealVal(1))
+        u = draws[0]
+        aa = e0["tis_set"]["accept_all"]
+        aa = aa if z3.is_expr(aa) else z3.BoolVal(bool(aa))
+        passes = z3.Or(aa, u <= pacc)
+        out.append(("energy_rule_rejects_exactly_when_u_exceeds_min_1_exp", (st_t == S("QEA")) == z3.Not(passes)))
+        out.append(("accepted_only_if_energy_rule_passes", z3.Implies(accv, passes)))
+    return out
+
+
+reg(Contract(
+    "quantis_swap_zero", src=(TIS_PY, "quantis_swap_zero"),
+    cases=[Case("energy_rule", _q_make(False)), Case("accept_all", _q_make(True))],
+    requires=_q_req, ensures=[("quantis", _q_post)],
+    canaries=[("never_accepts", lambda c: z3.Not(B(c.result[0])))],
+))
